@@ -121,6 +121,9 @@ class MM:
         self.notifications = list(doc.get("notifications", []))
         self._flat = {}
         self._envelopes = None
+        # documented customisation of the Python package (lsprotocol issue 344); C17 reads the
+        # metamodel without it
+        self.open_overrides = {"CompletionItemKind"}
 
     @classmethod
     def load(cls, path):
@@ -186,7 +189,7 @@ class MM:
 
     def is_open_enum(self, name):
         e = self.enums[name]
-        return bool(e.get("supportsCustomValues")) or name == "CompletionItemKind"
+        return bool(e.get("supportsCustomValues")) or name in self.open_overrides
 
     def enum_base(self, name):
         return self.enums[name]["type"]["name"]
